@@ -7,6 +7,7 @@
 (*   ondemand      Xerces bridge, wrapper nodes built on demand          RaceFree VIOLATED (expected) *)
 (*   sentinel      native tree without ID attributes (lazy list sentinel) RaceFree VIOLATED (expected) *)
 (*   poolunlocked  Xerces bridge, pool without mutex (useXercesDOM=true)  RaceFree VIOLATED (expected) *)
+(*   staticscratch a function-local static scratch buffer in the library  RaceFree VIOLATED (expected) *)
 (* The expected counterexamples prove that RaceFree is not vacuous in the model, and the           *)
 (* `_cons` configurations show on the same racy models that a behaviour without a rule-breaking    *)
 (* store always delivers the sequential output, while `_out` shows the race does change outputs.   *)
